@@ -189,6 +189,7 @@ class Exec:
         self.notes = []
         self.ghost = None
         self.assuming = 0
+        self.path_end_hooks = []
 
     # ---- fresh symbols ----------------------------------------------------------------------------
     def _name(self, base):
